@@ -161,6 +161,12 @@ class SNMPClientProtocol(asyncio.DatagramProtocol):
             raise Timeout(
                 f"{timeout} second timeout exceeded on UDP transport."
             ) from exc
+        except BaseException:
+            # Errors reported by the socket (f.ex. "connection refused") or a
+            # cancellation must not leave the socket open.
+            if self.transport:
+                self.transport.abort()
+            raise
 
 
 async def send_udp(
